@@ -1,8 +1,79 @@
 import PestModel.Model.Reader
-/-! # C07 — placeholder until the theorems land. -/
+import PestModel.Lemmas.Reader
+/-!
+# C07 — the grammar reader reconstructs exactly the grammar that was written (proved parts)
+
+`unescape`, the number parsers and the operator-precedence stage of `consume_expr` (C13's Pratt
+parser with the reader's table). The tokenisation of arbitrary spacing/comments by the meta-grammar
+is covered by the round-trip correspondence only (partial, DESIGN §6 C07).
+-/
 namespace PestModel.C07
 open PestModel.Reader
+open PestModel.LineCol (Str)
 
-theorem smoke : unescape "\\u{41}\\x42\\n".toList = some ['A', 'B', '\n'] := by decide
+/-- **Literal contents survive every spelling**: plain characters, `\n`-style escapes, `\xHH`,
+`\u{…}` with 2–6 digits in either case, in any mixture. -/
+theorem unescape_spell (quote : Char) (sps : List Spelling) (s cs : Str)
+    (h : spellAll quote sps s = some cs) : unescape cs = some s := by
+  exact unescape_spellAll quote sps s cs h
+
+/-- the only failures of `unescape` on a `\u{…}` escape with 2–6 hex digits are the values that are
+not Unicode scalar values (surrogates, beyond 10FFFF). -/
+theorem unescape_unicode_none (up : Bool) (k v : Nat) (hk : 2 ≤ k ∧ k ≤ 6) (hv : v < 16 ^ k) :
+    unescape (['\\', 'u', '{'] ++ hexDigits up k v ++ ['}']) = (charOfNat? v).map fun c => [c] := by
+  exact unescape_uni up k v hk hv
+
+/-- **Repetition counts** below 2³² read back, with any number of leading zeros. -/
+theorem count_roundtrip (n z : Nat) (h : n < 2 ^ 32) :
+    parseU32 (List.replicate z '0' ++ natDigits n) = some n := by
+  exact parseU32_zeros_digits n z h
+
+/-- **PEEK indices** in the `i32` range read back (negative ones are written `-`, zeros, digits). -/
+theorem index_roundtrip (i : Int) (z : Nat) (h : -(2 ^ 31 : Int) ≤ i ∧ i < 2 ^ 31) :
+    parseI32 (if i < 0 then '-' :: (List.replicate z '0' ++ natDigits i.natAbs)
+              else List.replicate z '0' ++ natDigits i.toNat) = some i := by
+  exact parseI32_zeros_digits i z h
+
+/-- canonical (minimally parenthesised) binary skeletons: `~` and `|` associate to the left, the
+right operand of `~` is a term, no `|` occurs directly under `~`. -/
+def Canon : Bin → Prop
+  | .leaf _ => True
+  | .seq a b => Canon a ∧ 2 ≤ a.level ∧ b.level = 3
+  | .alt a b => Canon a ∧ Canon b ∧ 2 ≤ b.level
+
+/-- the token sequence of one parenthesis level. -/
+def toks : Bin → List Nat
+  | .leaf i => [100 + i]
+  | .seq a b => toks a ++ [seqTok] ++ toks b
+  | .alt a b => toks a ++ [altTok] ++ toks b
+
+/-- **Operator structure**: choice binds looser than sequence and operators of equal level group
+left to right — the Pratt stage rebuilds exactly the tree that was written. -/
+theorem pratt_rebuilds (e : Bin) (h : Canon e) :
+    ∃ t, Pratt.parse readerTable (toks e) = .ok (t, []) ∧ ofTree t = some e := by
+  have ht : ∀ e, toks e = binToks e := by
+    intro e; induction e <;> simp [toks, binToks, *]
+  have hc : ∀ e, Canon e → BinCanon e := by
+    intro e; induction e <;> simp_all [Canon, BinCanon]
+  rw [ht]
+  exact parse_binToks e (hc e h)
+
+/-- Non-vacuity: the hypotheses are satisfiable by non-trivial instances (a mixed spelling of a
+string with a quote, a backslash and a non-ASCII character; a canonical skeleton using both
+operators on both sides), and `Canon` is needed: a right-nested `~` is not rebuilt. -/
+example :
+    spellAll '"' [.plain, .named, .named, .hex true, .uni 4 false, .uni 6 true] ['a', '"', '\\', 'é', 'é', '😀'] =
+      some ("a\\\"\\\\\\xE9\\u{00e9}\\u{01F600}").toList ∧
+    Canon (.alt (.alt (.seq (.seq (.leaf 0) (.leaf 1)) (.leaf 2)) (.leaf 3)) (.seq (.leaf 4) (.leaf 5))) ∧
+    ¬ (∃ t, Pratt.parse readerTable (toks (.seq (.leaf 0) (.seq (.leaf 1) (.leaf 2)))) = .ok (t, []) ∧
+        ofTree t = some (.seq (.leaf 0) (.seq (.leaf 1) (.leaf 2)))) := by
+  refine ⟨by decide, by simp [Canon, Bin.level], ?_⟩
+  rintro ⟨t, h1, h2⟩
+  have : Pratt.parse readerTable (toks (.seq (.leaf 0) (.seq (.leaf 1) (.leaf 2)))) =
+      .ok (.inf (.inf (.prim 100) 2 (.prim 101)) 2 (.prim 102), []) := by decide
+  rw [this] at h1
+  cases h1
+  revert h2
+  decide
 
 end PestModel.C07
